@@ -65,6 +65,10 @@ def unicode_ünï(ß):
     \treturn x
 '''
 SRC_B = 'def last_without_newline(v):\n    w = v * 2\n    return w'
+# characters that str.splitlines() takes for line ends and the compiler does not: a form-feed page separator between definitions (Emacs / GNU
+# style), vertical tab, FS/GS/RS, NEL, U+2028, U+2029 inside string literals and comments — the lines of a file are what `\\n` separates
+SRC_C = ('def before_page(a):\n    return a + 1\n\x0c\ndef after_page(b):\n    s = "nel \x85 fs \x1c vt \x0b ls \u2028 ps \u2029 end"\n'
+         '    # comment with gs \x1d and rs \x1e and ls \u2028 inside\n    t = b + len(s)\n    return t\n\x0c\n\ndef last_page(c):\n    u = c * 3\n    return u\n')
 
 def funcs_of(fname, src):
     """(file, co_firstlineno, name, last line) of every function / lambda in the source"""
@@ -82,6 +86,7 @@ def funcs_of(fname, src):
 
 FUNCS_A = funcs_of('mod_a.py', SRC_A.replace('\\t', '\t'))
 FUNCS_B = funcs_of('mod_b.py', SRC_B)
+FUNCS_C = funcs_of('mod_c.py', SRC_C)
 FUNCS_MISSING = [('gone.py', 10, 'vanished', 14)]
 HITS = [1, 2, 7, 40, 123456789, 999999999, 1000000000, 1234567890123, 10 ** 15]
 TIMES = [0, 1, 37, 999, 12345, 10 ** 6, 987654321, 10 ** 12, 10 ** 15, 10 ** 18]
@@ -90,7 +95,7 @@ OUNITS = [None, 1e-6, 1e-3, 1.0, 1e-9]
 
 
 def make_case(rng):
-    pool = FUNCS_A + FUNCS_B + (FUNCS_MISSING if rng.chance(1, 3) else [])
+    pool = FUNCS_A + FUNCS_B + FUNCS_C + (FUNCS_MISSING if rng.chance(1, 3) else [])
     k = rng.below(len(pool)) + 1
     chosen = rng.sample(pool, k)
     stats = []
@@ -118,7 +123,7 @@ def make_case(rng):
         for st in stats:
             if r2.chance(1, 2):
                 st[3] = [[l, 0, 0] for l in range(st[1], st[1] + 1 + r2.below(3))]
-    case = {'files': {'mod_a.py': SRC_A.replace('\\t', '\t'), 'mod_b.py': SRC_B}, 'stats': stats, 'unit': rng.choice(UNITS),
+    case = {'files': {'mod_a.py': SRC_A.replace('\\t', '\t'), 'mod_b.py': SRC_B, 'mod_c.py': SRC_C}, 'stats': stats, 'unit': rng.choice(UNITS),
             'output_unit': rng.choice(OUNITS), 'opts': opts}
     r3 = rng.fork('edited')
     if r3.chance(1, 5):
